@@ -332,7 +332,7 @@ impl Scenario for C05 {
                 let expected = vec![
                     EvPat { contract: iw.sc(&iw.its), name: "interchain_transfer_sent", must: sent_must },
                     EvPat { contract: iw.sc(&iw.gas), name: "gas_paid", must: vec![w.sc_addr_val(&iw.its), sstr(HUB_CHAIN), sstr(HUB_ADDRESS), sbytes(&ph), w.sc_addr_val(s), token_scval(&iw.sc(self.token_addr(ctx, gt)), g)] },
-                    EvPat { contract: iw.sc(&iw.gw), name: "contract_called", must: vec![w.sc_addr_val(&iw.its), sstr(HUB_CHAIN), sstr(HUB_ADDRESS), sbytes(&payload), sbytes(&ph)] },
+                    EvPat { contract: iw.sc(&iw.gw), name: "contract_called", must: vec![w.sc_addr_val(&iw.its), sstr(HUB_CHAIN), sstr(HUB_ADDRESS), sbytes(&ph), sbytes(&payload)] },
                 ];
                 let r = match_events(&call.events, &expected, &["interchain_transfer_sent", "gas_paid", "contract_called", "interchain_transfer_received"]);
                 out.expect(r.is_ok(), "outbound.announcement", || truncate(&r.unwrap_err(), 900));
